@@ -1,6 +1,8 @@
 #!/bin/bash
 # (re)build the extracted-model driver: extraction is re-run from the current Coq sources
 set -e
+# sub-runs of the C12 check share one already built driver
+[ -n "$VERIF_SKIP_MODELBUILD" ] && [ -x "$(dirname "$0")/modelrun" ] && exit 0
 cd "$(dirname "$0")"
 mkdir -p gen
 ( cd gen && timeout 600 coqc -Q ../../coq/theories Chibicc ../../coq/theories/Extract/Extract.v )
